@@ -255,6 +255,12 @@ def run(chk):
                 if min(frac, 1 - frac) * segs[k][0] < 50.0:
                     chk.count("boundary-ambiguous (junction / end of surface)")
                     continue
+                if t < 0.001 or t > 0.999:
+                    # a two-point trench is the curve A + (B-A) t^3: the Newton foot solver (stopping at |update| < 1e-4) leaves
+                    # the foot of a point next to the first end at A itself (up to 2e-4 of the trench length off), and the
+                    # distances are then those to A (measured: 0.27 m at 1 km, 2 mm at 400 km)
+                    chk.count("boundary-ambiguous (foot within 0.1 % of a trench end)")
+                    continue
                 dsc = cs.describe(i_d)
                 dsc.update({"expected": [exp_dist, along], "got": a, "u": u, "v": v, "trench_fraction": t, "segment": k})
                 viol.append(("distance_to_plane reports (%.3f, %.3f), the planar construction gives (%.3f, %.3f)" % (a[0], a[1], exp_dist, along), dsc))
